@@ -1,11 +1,11 @@
 ---- MODULE MC_HttpRun ----
 EXTENDS MC_Http
-R1 == [id |-> "R1", qc |-> FALSE, ts |-> <<T("MIXED", "none"), T("MULTIPART", "none"), T("POST", "other"), T("FORM", "lcjson"), T("SSE", "none"), T("WS", "none"), T("GRAPHQL", "gqlresp")>>]
-R2 == [id |-> "R2", qc |-> TRUE, ts |-> <<T("MIXED", "none"), T("POST", "gqlresp"), T("GET", "json"), T("GRAPHQL", "json"), T("FORM", "lcjson"), T("SSE", "none"), T("OPTIONS", "none")>>]
-R3 == [id |-> "R3", qc |-> TRUE, ts |-> <<T("MIXED", "none"), T("FORM", "json"), T("MULTIPART", "none"), T("GET", "other"), T("POST", "json+other"), T("WS", "none"), T("SSE", "none")>>]
-R4 == [id |-> "R4", qc |-> TRUE, ts |-> <<T("OPTIONS", "none"), T("FORM", "json"), T("POST", "json+other"), T("GRAPHQL", "json+other"), T("GET", "json+other"), T("MULTIPART", "gqlresp"), T("WS", "none"), T("MIXED", "none")>>]
-R5 == [id |-> "R5", qc |-> FALSE, ts |-> <<T("FORM", "json+other"), T("OPTIONS", "none"), T("SSE", "none"), T("MIXED", "none"), T("GRAPHQL", "gqlresp")>>]
-R6 == [id |-> "R6", qc |-> TRUE, ts |-> <<T("OPTIONS", "none"), T("MULTIPART", "other"), T("WS", "none"), T("FORM", "none"), T("GRAPHQL", "json")>>]
+R1 == [id |-> "R1", qc |-> TRUE, ts |-> <<T("MIXED", "none"), T("FORM", "json+other"), T("SSE", "none"), T("GRAPHQL", "none"), T("MULTIPART", "lcjson"), T("WS", "none"), T("OPTIONS", "none"), T("POST", "other")>>]
+R2 == [id |-> "R2", qc |-> TRUE, ts |-> <<T("FORM", "gqlresp"), T("MULTIPART", "json+other"), T("OPTIONS", "none"), T("POST", "lcjson"), T("GET", "other"), T("MIXED", "none"), T("WS", "none"), T("SSE", "none")>>]
+R3 == [id |-> "R3", qc |-> FALSE, ts |-> <<T("POST", "none"), T("GET", "none"), T("FORM", "json+other"), T("MIXED", "none"), T("WS", "none"), T("SSE", "none"), T("OPTIONS", "none"), T("GRAPHQL", "json+other"), T("MULTIPART", "json")>>]
+R4 == [id |-> "R4", qc |-> FALSE, ts |-> <<T("OPTIONS", "none"), T("MIXED", "none"), T("GET", "none"), T("SSE", "none"), T("FORM", "json"), T("GRAPHQL", "gqlresp"), T("WS", "none")>>]
+R5 == [id |-> "R5", qc |-> TRUE, ts |-> <<T("POST", "json+other"), T("MIXED", "none"), T("FORM", "other"), T("GET", "none"), T("MULTIPART", "none"), T("SSE", "none"), T("GRAPHQL", "other"), T("WS", "none")>>]
+R6 == [id |-> "R6", qc |-> TRUE, ts |-> <<T("MULTIPART", "gqlresp"), T("OPTIONS", "none"), T("SSE", "none"), T("WS", "none"), T("GET", "lcjson"), T("FORM", "json"), T("POST", "json"), T("GRAPHQL", "none")>>]
 ASSUME PrintT(ToJson([servers |-> {R1, R2, R3, R4, R5, R6}]))
 OnlyS1 == {S1}
 OnlyS2 == {S2}
